@@ -497,7 +497,8 @@ def genattr(pm: ProgramModel, ctx: Ctx, mb: ModelBuilder) -> None:
                   bad="; ".join(bad2[:3]))
     # (b') a float range: rounding is monotone, so the value stays inside [a, b] for every draw iff it does for
     # the draws a and b themselves; bounds with different numbers of decimals, and an int bound beside a float
-    for lo_, hi_ in ((0.5, 2.25), (1.5, 1.58), (0.44, 0.5), (1, 2.75), (0.125, 3), (2.0, 2.5)):
+    for lo_, hi_ in ((0.5, 2.25), (1.5, 1.58), (0.44, 0.5), (1, 2.75), (0.125, 3), (2.0, 2.5),
+                     (1e-05, 2e-05), (1e-07, 0.5), (2.5e-06, 1.0), (100000.0, 1e+16), (0.1, 1e+17)):
         bad3 = []
         for pick in ("lo", "hi", "mid"):
             PICK[0] = pick
